@@ -108,7 +108,15 @@ def _is_type_checking(node: ast.If) -> bool:
 
 
 def _has_elif_block(node: ast.If) -> bool:
-    return bool(node.orelse) and len(node.orelse) == 1 and isinstance(node.orelse[0], ast.If)
+    # An ``elif`` is a single nested ``If`` in ``orelse`` that starts in the column of
+    # its parent; an ``else:`` block that merely consists of one ``if`` statement is
+    # indented deeper and must be treated like any other ``else`` block.
+    return (
+        bool(node.orelse)
+        and len(node.orelse) == 1
+        and isinstance(node.orelse[0], ast.If)
+        and node.orelse[0].col_offset == node.col_offset
+    )
 
 
 @dataclass(frozen=True)
